@@ -45,7 +45,8 @@ var c15Pool = []c15Item{
 func c15Body(it c15Item) func() string {
 	return func() string {
 		src := graph.EdgeSlice(Input{E: it.e}.Edges())
-		return string(serLayout(autog.Layout(src, it.opts()...)))
+		// rendered with %g (shortest representation that round-trips): equality of the text is equality of the layout
+		return describeLayout(autog.Layout(src, it.opts()...))
 	}
 }
 
@@ -66,8 +67,10 @@ func c15SoloResults() {
 	c15Hooks()
 	for _, it := range c15Pool {
 		verifrt.Reset(nil)
+		globalRestore() // "alone" = from the initial global state, like every thread of a scenario
 		c15Solo = append(c15Solo, c15Body(it)())
 	}
+	globalRestore()
 }
 
 func evalC15(x *Ctx, in Input) {
@@ -79,13 +82,22 @@ func evalC15(x *Ctx, in Input) {
 	for i, k := range in.E {
 		bodies[i] = c15Body(c15Pool[k])
 	}
+	globalRestore()
 	snap0 := globalSnapshot()
 	visited := map[string]bool{}
 	states := map[string]bool{}
 	execs := 0
 	maxPre := 0
 	viol0 := x.st.Violations + sumMap(x.st.Known)
-	capped := false
+	capped, cutByBound, bound := false, false, 0
+	// within a bounded round the preemptions used so far are part of the pruning key (the same state reached with fewer
+	// preemptions used has more futures inside the bound); the unbounded search prunes on the state alone
+	vkey := func(key string, t, cost int) string {
+		if bound >= 1<<30 {
+			return fmt.Sprint(key, "#", t)
+		}
+		return fmt.Sprint(key, "#", t, "#", cost)
+	}
 	var explore func(prefix []int)
 	explore = func(prefix []int) {
 		if x.st.Violations+sumMap(x.st.Known) > viol0 || len(x.replayed) > 0 {
@@ -102,7 +114,7 @@ func evalC15(x *Ctx, in Input) {
 		x.st.PassEvals[x.pass.Name]++
 		for i, k := range in.E {
 			if s.Result[i] != c15Solo[k] {
-				x.Violate("C15:result-differs-from-solo", nil, map[string]any{"schedule": prefix}, fmt.Sprintf("thread %d (%s) returned something else than when run alone, under schedule %v", i, c15Pool[k].name, prefix))
+				x.Violate("C15:result-differs-from-solo", nil, map[string]any{"schedule": prefix}, fmt.Sprintf("thread %d (%s) returned something else than when run alone, under schedule %v\nalone:\n%sin this schedule:\n%s", i, c15Pool[k].name, prefix, c15Solo[k], s.Result[i]))
 			}
 		}
 		if s.Deadlock != "" {
@@ -116,10 +128,11 @@ func evalC15(x *Ctx, in Input) {
 			// not a violation by itself (a correctly synchronised cache or counter is legitimate): the state is part of the
 			// scheduler's state key, results are compared with the solo results, accesses are judged by the race rule
 			x.Hist("package-level data differs after the scenario (informational)", 1)
-			globalRestore()
 		}
+		// every execution starts from the initial global state — data AND sync objects (lazily built tables are rebuilt)
+		globalRestore()
 		choices := make([]int, len(s.Trace))
-		pre := 0
+		preBefore := make([]int, len(s.Trace)+1) // preemptions used before decision i
 		for i, st := range s.Trace {
 			states[st.Key] = true
 			for ci, t := range st.Enabled {
@@ -127,16 +140,17 @@ func evalC15(x *Ctx, in Input) {
 					choices[i] = ci
 				}
 			}
+			preBefore[i+1] = preBefore[i]
 			if i > 0 && st.Chosen != s.Trace[i-1].Chosen && len(st.Enabled) > 0 && st.Enabled[0] == s.Trace[i-1].Chosen {
-				pre++
+				preBefore[i+1]++
 			}
 		}
-		if pre > maxPre {
-			maxPre = pre
+		if p := preBefore[len(s.Trace)]; p > maxPre {
+			maxPre = p
 		}
 		for i := len(prefix); i < len(s.Trace); i++ {
 			st := s.Trace[i]
-			visited[st.Key+"#"+fmt.Sprint(st.Chosen)] = true
+			visited[vkey(st.Key, st.Chosen, preBefore[i+1])] = true
 		}
 		for i := len(prefix); i < len(s.Trace); i++ {
 			st := s.Trace[i]
@@ -144,7 +158,16 @@ func evalC15(x *Ctx, in Input) {
 				if t == st.Chosen {
 					continue
 				}
-				k := st.Key + "#" + fmt.Sprint(t)
+				// switching away from the thread that was running and is still enabled is a preemption
+				cost := preBefore[i]
+				if i > 0 && st.Enabled[0] == s.Trace[i-1].Chosen && t != st.Enabled[0] {
+					cost++
+				}
+				if cost > bound {
+					cutByBound = true
+					continue
+				}
+				k := vkey(st.Key, t, cost)
 				if visited[k] {
 					continue
 				}
@@ -153,19 +176,54 @@ func evalC15(x *Ctx, in Input) {
 			}
 		}
 	}
+	// iterative context bounding: all schedules with 0 preemptions, then <= 1, <= 2, ... Each round is a complete search
+	// within its bound (state-key pruning inside a round distinguishes the preemptions used so far); a round in which the
+	// bound cut nothing IS the unbounded search. The budget (schedule cap) ends the iteration: the last completed bound is
+	// what the evidence reports.
+	completed, unbounded, grants := -1, false, 0
+	// first the unbounded search outright: when the scenario is small enough for the budget that is the whole answer
+	bound = 1 << 30
 	explore(nil)
-	if capped {
-		x.st.DeadlineHit = true
-		x.st.Notes = appendOnce(x.st.Notes, fmt.Sprintf("C15: scenario %v stopped at the cap of %d schedules (not exhaustive)", in.E, c15MaxSchedules))
+	grants += len(visited)
+	if !capped {
+		unbounded = true
 	}
-	x.st.Transitions += int64(len(visited))
+	budget := c15MaxSchedules
+	if capped {
+		capped = false
+		c15MaxSchedules = execs + budget/2 // a second, smaller budget for the bounded iteration
+	}
+	for bound = 0; !unbounded; bound++ {
+		cutByBound = false
+		visited = map[string]bool{}
+		explore(nil)
+		grants += len(visited)
+		if capped || x.st.Violations+sumMap(x.st.Known) > viol0 || len(x.replayed) > 0 {
+			break
+		}
+		completed = bound
+		if !cutByBound {
+			unbounded = true
+			break
+		}
+	}
+	c15MaxSchedules = budget
+	if unbounded {
+		x.Hist("preemption-bound-completed", "unbounded")
+	} else {
+		x.Hist("preemption-bound-completed", completed)
+		if capped {
+			x.st.DeadlineHit = true
+			x.st.Notes = appendOnce(x.st.Notes, fmt.Sprintf("C15: scenario %v: budget of %d schedules reached; every schedule with <= %d preemptions was explored", in.E, c15MaxSchedules, completed))
+		}
+	}
+	x.st.Transitions += int64(grants)
 	x.Hist("threads", len(in.E))
 	x.Hist("schedules-per-scenario", execs)
 	x.Hist("max-preemptions-in-a-schedule", maxPre)
-	x.st.Notes = appendOnce(x.st.Notes, "C15: interleaving search is unbounded in preemptions (state-key pruning)")
 	x.st.States += int64(len(states))
 	x.Nontrivial([]byte(fmt.Sprint(in.E, execs, len(states))))
-	x.Sample(map[string]any{"threads": in.E, "schedules": execs, "scheduler_states": len(states), "grants": len(visited)})
+	x.Sample(map[string]any{"threads": in.E, "schedules": execs, "scheduler_states": len(states), "grants": grants, "preemption_bound_completed": map[bool]any{true: "unbounded", false: completed}[unbounded]})
 }
 
 func appendOnce(l []string, s string) []string {
